@@ -484,6 +484,13 @@ def check_c15(out, tier):
         elif r_ < .75:
             cfg["mode"] = "classes"
             cfg["targets"] = rnd.sample(classes, rnd.randint(1, len(classes)))
+            if rnd.random() < .5:
+                # instances_cap not smaller than any target class: every instance is still selected, whatever order the endpoint
+                # answers in, so the result must not change; a cap equal to the class sizes makes the tracker stop reading early
+                sizes = [sum(1 for s_, p_, o_ in T if p_ == M.RDF_TYPE and o_[1] == cl) for cl in cfg["targets"]]
+                if rnd.random() < .6:
+                    cfg["targets"] = [cl for cl, n_ in zip(cfg["targets"], sizes) if n_ == max(sizes)]
+                cfg["cap"] = max(sizes) + rnd.choice([0, 0, 1])
         else:
             cfg["mode"] = "shapemap"
             cfg["items"] = pipeline.shape_map_items(rnd, T, classes)
